@@ -43,7 +43,7 @@ def encode_arg(st, v):
         return [z3.IntVal(atom_code("fn:" + v.ref.key))]
     if type(v).__name__ == "SObj":
         return [z3.IntVal(atom_code("obj:" + getattr(v.cls, "__name__", "?")))]
-    if type(v).__name__ == "SText":
+    if getattr(v, "is_text", False):
         return [z3.Int(f"{v.name}$id"), V._z(v.offset), V._z(v.length)]
     if isinstance(v, tuple):
         out = [z3.IntVal(len(v))]
